@@ -22,6 +22,7 @@ type Case struct {
 	ID      string            `json:"id"`
 	Harness string            `json:"harness"`
 	Model   map[string]uint64 `json:"model"`
+	Params  map[string]int    `json:"params"`
 }
 
 type Result struct {
@@ -42,6 +43,10 @@ func runCase(c Case) (res Result) {
 		return
 	}
 	sym.Reset(c.Model)
+	sym.Params = c.Params
+	if sym.Params == nil {
+		sym.Params = map[string]int{}
+	}
 	defer func() {
 		res.Failures = sym.Failures
 		res.Covers = sym.Covers
